@@ -64,7 +64,36 @@ def run(ctx):
     pairs = 0
     for c, io in zip(cases, i):
         pairs += oracle(ctx, c, io, "impl")
-    ctx.evaluations = len(cases)
+    # long single-instance histories (implementation only; see ipgen.long_history)
+    import vlib
+    longs = [ipgen.long_history(rng, 16000 if q else 60000, B=B, pfx=pfx) for B, pfx in ((8, "D"), (0, "D"))]
+    lo = vlib.run_impl(longs, jobs=2)
+    for c, out in zip(longs, lo):
+        ops, res = ipgen.ops_of(c), out.split(" ")
+        if len(ops) != len(res) or not all(r.isdigit() for r in res):
+            ctx.fail("anonymize raised in a long history", c[:-1] + ["<%d requests>" % len(ops)], out[:200], label="impl-long")
+            continue
+        seen = {}
+        for k, (o, r) in enumerate(zip(ops, res)):
+            if o in seen and seen[o] != r:
+                ctx.fail("the same address received two different images within one run (request %d of %d)" % (k, len(ops)),
+                         c[:-1] + ["<%d distinct addresses, then %s again>" % (len(ops) - 200, o)], {"first": seen[o], "later": r}, label="impl-long")
+                break
+            seen[o] = r
+        # pairs between early, middle and late addresses
+        idx = list(range(0, 150)) + list(range(len(ops) // 2, len(ops) // 2 + 100)) + list(range(len(ops) - 350, len(ops) - 200))
+        pts = [(int(ops[k][1:]), int(res[k])) for k in idx]
+        for a in range(len(pts)):
+            for b in range(a + 1, len(pts)):
+                pairs += 1
+                if ipgen.lcp(pts[a][0], pts[b][0], 32) != ipgen.lcp(pts[a][1], pts[b][1], 32):
+                    ctx.fail("common-prefix length not preserved between addresses anonymized far apart in one long run",
+                             c[:-1] + ["<%d requests>" % len(ops)], {"a": pts[a][0], "b": pts[b][0], "image_a": pts[a][1], "image_b": pts[b][1]}, label="impl-long")
+                    break
+            else:
+                continue
+            break
+    ctx.evaluations = len(cases) + len(longs)
     ctx.distinct_nontrivial = pairs
-    ctx.search_stats = {"pairs_compared": pairs, "cases": len(cases)}
+    ctx.search_stats = {"pairs_compared": pairs, "cases": len(cases), "long_histories": [len(ipgen.ops_of(c)) for c in longs]}
     ctx.samples = [{"case": c, "impl": o} for c, o in list(zip(cases, i))[:2] + list(zip(cases, i))[-2:]]
